@@ -816,7 +816,7 @@ fn explore_maps(cfg: &Cfg, rep: &Reporter, label: &str, kdefs: &[KeyDef], depth:
     let g = stats.into_inner().unwrap();
     report.merge(&g);
     if report.ops.get("insert").copied().unwrap_or(0) == 0 || report.ops.get("remove").copied().unwrap_or(0) == 0 {
-        machinery_error("vacuous: C12 map BFS executed no insert or no remove");
+        vacuous("vacuous: C12 map BFS executed no insert or no remove");
     }
     report.wall_s = t_all.elapsed().as_secs_f64();
     report
@@ -1411,7 +1411,7 @@ fn explore_sequences(cfg: &Cfg, rep: &Reporter, ev_: &mut Evidence, max_len: usi
     ev_.nontrivial += g.nontrivial;
     for need in ["nth:in-range", "nth:negative-in-range", "nth:negative-past-start", "nth:past-end", "nth:beyond-isize", "nth:isize-extreme", "get:in-range", "get:past-end", "get:beyond-isize", "slice:with-extreme-index", "slice:small-indices", "str-slice:small-indices", "collect:valid", "collect:extreme", "collect:more-than-depth", "push", "reverse", "unbox", "length", "concat", "join"] {
         if g.table.get(need).copied().unwrap_or(0) == 0 {
-            machinery_error(&format!("vacuous: C12 sequence sweep never exercised {}", need));
+            vacuous(&format!("vacuous: C12 sequence sweep never exercised {}", need));
         }
     }
     ev_.add("sequence_sweep", jo(vec![("max_length", ji(max_len)), ("vectors", ji(total)), ("strings", ji(total)), ("cases", ji(g.cases)), ("element_alphabet", J::A(ELEMS.iter().map(|s| js(*s)).collect())), ("per_word_and_index_class", jmap(&g.table))]));
@@ -1557,7 +1557,7 @@ fn explore_sort(cfg: &Cfg, rep: &Reporter, ev_: &mut Evidence, max_len: usize) {
     ev_.evaluations += evals.load(Ordering::Relaxed);
     ev_.nontrivial += nontriv.load(Ordering::Relaxed);
     if nontriv.load(Ordering::Relaxed) == 0 {
-        machinery_error("vacuous: C12 sort sweep has no unsorted input");
+        vacuous("vacuous: C12 sort sweep has no unsorted input");
     }
     ev_.add("sort_sweep", jo(vec![("max_length", ji(max_len)), ("lists", ji(total)), ("unsorted_inputs", ji(nontriv.load(Ordering::Relaxed))), ("families", J::A(FAMS.iter().map(|(n, e)| jo(vec![("type", js(*n)), ("elements", J::A(e.iter().map(|s| js(*s)).collect()))])).collect()))]));
 }
@@ -1595,7 +1595,7 @@ pub fn run(cfg: &Cfg) -> i32 {
                 machinery_error(&format!("C12: key family {} met a cross-type collision", name));
             }
             if (r.states < 3 && r.pruned_own == 0) || r.transitions == 0 || l.literals == 0 {
-                machinery_error(&format!("vacuous: C12 key family {} explored nothing", name));
+                vacuous(&format!("vacuous: C12 key family {} explored nothing", name));
             }
             ev_.states += r.states + l.literals;
             ev_.transitions += r.transitions + l.literals;
@@ -1622,7 +1622,7 @@ pub fn run(cfg: &Cfg) -> i32 {
         ev_.evaluations += r.evals + l.evals;
         ev_.nontrivial += r.mixed_states + l.literals_mixed;
         if lit_pairs >= 2 && l.literals_mixed == 0 {
-            machinery_error("vacuous: C12 literal sweep has no literal with keys of two types");
+            vacuous("vacuous: C12 literal sweep has no literal with keys of two types");
         }
         ev_.add("map_mixed", jo(vec![("alphabet", js("mixed")), ("nominal_max_sequence_length", ji(depth)), ("extra_levels_state_budget", ji(budget)), ("bfs", r.json_bfs()), ("literals", l.json_lit())]));
     }
